@@ -685,7 +685,16 @@ func fileClosedOnCancel(j *CtxJudge, p *Prog, fn *ssa.Function, fileArg ssa.Valu
 				}
 			}
 		})
-		return doneRecv != nil && closeCall != nil && dominatesInstr(doneRecv, closeCall)
+		if doneRecv == nil || closeCall == nil || !dominatesInstr(doneRecv, closeCall) {
+			return false
+		}
+		// ... on every path: a close that is only the fall-back of another
+		// attempt (a deadline, a flag) is not reached when that attempt
+		// reports success
+		if skip := searchAvoiding(cf, doneRecv, isReturn, func(in ssa.Instruction) bool { return in == closeCall }); skip != nil {
+			return false
+		}
+		return true
 	}
 	// a goroutine that does so, started in this function (go func(){...}(),
 	// go closer(ctx, file)) or in a repository helper called from it with
@@ -890,8 +899,36 @@ func lockHoldersDoNotBlock(c *Check) {
 			c.Bad("lock-holders-do-not-block", fmt.Sprintf("%s: %s in %s", e.EP, e.What, e.Fn), e.Pos, "blocking operation while holding "+strings.Join(e.Held, ",")+": a worker waiting for this mutex cannot be cancelled")
 		}
 	}
+	// lock order: two activations that take two locks in opposite order
+	// block each other for ever (the processor's loop never gets back to
+	// its select and never observes cancellation)
+	edges := map[string]map[string]string{}
+	for _, e := range w.Events {
+		if e.Kind != "acquire" {
+			continue
+		}
+		for _, h := range e.Held {
+			if h == e.What {
+				continue
+			}
+			if edges[h] == nil {
+				edges[h] = map[string]string{}
+			}
+			if _, ok := edges[h][e.What]; !ok {
+				edges[h][e.What] = e.Pos + " (" + e.EP + ")"
+			}
+		}
+	}
+	for a, m := range edges {
+		for b2, pos := range m {
+			if back, ok := edges[b2][a]; ok && a < b2 {
+				bad++
+				c.Bad("lock-holders-do-not-block", "lock order "+a+" <-> "+b2, pos, "the two locks are taken in opposite order by different deliveries ("+a+" then "+b2+" at "+pos+"; "+b2+" then "+a+" at "+back+"): they can deadlock, after which the worker is never cancelled")
+			}
+		}
+	}
 	if bad == 0 {
-		c.OK("lock-holders-do-not-block", "tracker and health critical sections", "-", fmt.Sprintf("%d lock acquisitions walked, no blocking operation under any lock", acq))
+		c.OK("lock-holders-do-not-block", "tracker and health critical sections", "-", fmt.Sprintf("%d lock acquisitions walked, no blocking operation under any lock, lock order acyclic", acq))
 	}
 }
 
